@@ -353,17 +353,30 @@ def check_wiring(prog):
     obs = []
     O = OBJ + "ObjValue::"
     # has_field_ex(name, include_hidden): true -> has_field_include_hidden, false -> has_field
-    h = prog.hir.get(O + "has_field_ex")
+    # (decided on MIR facts, so `if`, `match` on the bool and early returns are the same thing)
     f = prog.fn(O + "has_field_ex")
     key = "has_field_ex"
     good = False
-    if h:
-        for n in H.nodes(h["body"], "if"):
-            if H.local_name(n[1]) == "include_hidden":
-                t = [c[1] for c in H.calls(n[2])]
-                e = [c[1] for c in H.calls(n[3])] if n[3] else []
-                if t == [O + "has_field_include_hidden"] and e == [O + "has_field"]:
-                    good = True
+    if f is not None:
+        P = f.param(name="include_hidden", ty="bool") or 3
+
+        def flag_at(b):
+            for u, v, (d, val) in f.facts_at(b):
+                sd = strip(d)
+                while sd[0] in ("ref", "deref"):
+                    sd = sd[1]
+                if sd == ("param", P) or (sd[0] == "param" and sd[1] == P):
+                    if val is True or val == ("eq", 1) or (isinstance(val, tuple) and val[0] == "ne" and list(val[1]) == [0]):
+                        return True
+                    if val is False or val == ("eq", 0) or (isinstance(val, tuple) and val[0] == "ne" and list(val[1]) == [1]):
+                        return False
+            return None
+        seen = {}
+        for b, t in f.calls():
+            c = t.get("res") or t.get("fn") or ""
+            if c in (O + "has_field_include_hidden", O + "has_field") and not f.is_cleanup(b):
+                seen.setdefault(c, []).append(flag_at(b))
+        good = seen.get(O + "has_field_include_hidden") == [True] and seen.get(O + "has_field") == [False]
     obs.append(ok(RULE, key, site(f), "include_hidden ? has_field_include_hidden : has_field") if good else
                bad(RULE, key, site(f) if f else "", "has_field_ex does not select has_field_include_hidden for include_hidden=true and has_field otherwise"))
     # has_field: visible iff field_visibility is Normal|Unhide
